@@ -59,10 +59,10 @@ type prop struct {
 }
 
 var props = []prop{
-	{ID: "C01", Level: "model_checking", Shards: 16},
-	{ID: "C02", Level: "fault_enumeration", Shards: 16},
-	{ID: "C03", Level: "exploration", Shards: 16},
-	{ID: "C04", Level: "fault_enumeration", Shards: 16},
+	{ID: "C01", Level: "model_checking", Overlay: true, Shards: 16},
+	{ID: "C02", Level: "fault_enumeration", Overlay: true, Shards: 16},
+	{ID: "C03", Level: "exploration", Overlay: true, Shards: 16},
+	{ID: "C04", Level: "fault_enumeration", Overlay: true, Shards: 16},
 	{ID: "C05", Level: "exploration", Shards: 16},
 	{ID: "C06", Level: "model_checking", Shards: 16},
 	{ID: "C07", Level: "model_checking", Overlay: true, Shards: 16, QuickBudget: 45, ThoroughBudget: 900, RacePkg: "c07race"},
